@@ -166,6 +166,7 @@ pub fn run(req: &RunRequest) -> Value {
                     .map(|t| TableDef {
                         name: t.to_string(),
                         partitioner: Some("org.apache.cassandra.dht.Murmur3Partitioner".into()),
+                        view_of: None,
                     })
                     .collect(),
             });
